@@ -241,9 +241,11 @@ async fn rig_pair(pair: &str, senders: usize, per: u32) -> Result<(u64, u64), St
     if recv_ty == "SUB" {
         rx.subscribe("").await?;
     }
+    let done = std::sync::Arc::new(std::sync::atomic::AtomicBool::new(false));
     let mut tasks = Vec::new();
     for k in 0..senders {
         let ep = ep.clone();
+        let done = done.clone();
         let send_ty = send_ty.to_string();
         tasks.push(tokio::spawn(async move {
             let mut tx = Sock::new(&send_ty, None);
@@ -267,7 +269,10 @@ async fn rig_pair(pair: &str, senders: usize, per: u32) -> Result<(u64, u64), St
                 }
             }
             // keep the connection up until the receiver is done
-            tokio::time::sleep(std::time::Duration::from_millis(400)).await;
+            let t0 = std::time::Instant::now();
+            while !done.load(std::sync::atomic::Ordering::SeqCst) && t0.elapsed() < std::time::Duration::from_secs(120) {
+                tokio::time::sleep(std::time::Duration::from_millis(20)).await;
+            }
             Ok::<(), String>(())
         }));
     }
@@ -309,6 +314,7 @@ async fn rig_pair(pair: &str, senders: usize, per: u32) -> Result<(u64, u64), St
             rx.send(&crate::refcodec::tagged(1000 + t.origin, t.seq, &[3])).await.map_err(|e| e.text)?;
         }
     }
+    done.store(true, std::sync::atomic::Ordering::SeqCst);
     for t in tasks {
         match tokio::time::timeout(WAIT, t).await {
             Ok(Ok(Ok(()))) => {}
@@ -765,6 +771,23 @@ fn common_cases(tier: Tier, seed: u64, me: &str) -> Vec<Value> {
         vec!["insert(0)", "arrive(0)", "poll", "poll", "reinsert(0)", "poll", "arrive(0)"],
     ] {
         v.push(json!({"kind": "fq_actions", "k": 2, "pre": false, "block": true, "acts": acts}));
+    }
+    // a key that is inserted again (a peer reconnecting under its identity) while its
+    // earlier events are still queued must not collect one more turn per re-insertion
+    for (k, r) in [(2usize, 3usize), (2, 5), (2, 9), (3, 5), (3, 9), (3, 17)] {
+        let mut acts: Vec<String> = (0..k).map(|i| format!("insert({i})")).collect();
+        for i in 0..k {
+            if i != 1 {
+                acts.extend(std::iter::repeat(format!("arrive({i})")).take(r + 6));
+            }
+        }
+        for _ in 0..r {
+            acts.push("arrive(1)".into());
+            acts.push("reinsert(1)".into());
+        }
+        acts.extend(std::iter::repeat("arrive(1)".to_string()).take(2 * r + 8));
+        acts.extend(std::iter::repeat("poll".to_string()).take(k * (r + 6) + 2 * r + 8));
+        v.push(json!({"kind": "fq_actions", "k": k, "pre": false, "block": true, "acts": acts}));
     }
     // ... and for real: a recv loop in block_on while a peer floods the socket
     for ty in ["PULL", "ROUTER", "REP", "DEALER", "SUB"] {
